@@ -1,3 +1,1328 @@
-fn main() {
-    let _ = mithril_signer::SignerState::Init;
+//! C20 — correspondence harness for the signer.
+//!
+//! The REAL signer (state machine, runner, certifier, epoch service, single signer, sqlite stores, HTTP
+//! aggregator client, production publisher wiring) runs against /repo's own fake aggregator
+//! (`tests/test_extensions/fake_aggregator_http.rs`, mounted by `#[path]`) through a small reverse proxy
+//! owned by the harness. The proxy injects the network faults (aggregator down, registration round not
+//! open, failing registration / publication, dropped registration) and records every request body, which
+//! is the observation "what did the aggregator receive". The aggregator has its own chain observer, so
+//! its epoch can lag behind or run ahead of the signer's (stale / early epoch settings). A decorator
+//! around the signed-beacon store injects failures of `mark_beacon_as_signed`. A restart drops every
+//! service and the sqlite connections and rebuilds them on the same database files.
+//!
+//! One case = one run of 30–200 events. K: after every event the state label, the cycle result, the
+//! registration requests, the signatures received by the aggregator and the three tables, against the
+//! Lean model `Signer.step`. S (on the real behaviour): once-ness, the signature verifies under the key
+//! registered two epochs earlier (a real `SignerBuilder`/`MultiSigner` built from the aggregator's
+//! registrations under the protocol's offsets, with the stake distribution in force), the signed message
+//! is the one such an aggregator computes, never a publication without an eligible registration.
+use std::collections::{BTreeMap, BTreeSet, HashMap};
+use std::fmt::Write as _;
+use std::path::{Path, PathBuf};
+use std::sync::atomic::{AtomicBool, AtomicU64, Ordering};
+use std::sync::{Arc, Mutex};
+use std::time::Duration;
+
+use async_trait::async_trait;
+use hutil::{Args, Rng, Sink};
+
+mod test_extensions {
+    #[path = "/repo/mithril-signer/tests/test_extensions/fake_aggregator_http.rs"]
+    mod fake_aggregator_http;
+    pub use fake_aggregator_http::FakeAggregatorHttpServer;
+}
+use test_extensions::FakeAggregatorHttpServer;
+
+use mithril_aggregator_client::AggregatorHttpClient;
+use mithril_cardano_node_chain::{
+    chain_importer::CardanoChainDataImporter,
+    test::double::{DumbBlockScanner, FakeChainObserver},
+};
+use mithril_cardano_node_internal_database::{
+    signable_builder::CardanoDatabaseSignableBuilder,
+    test::double::{DumbImmutableDigester, DumbImmutableFileObserver},
+};
+use mithril_common::{
+    StdResult,
+    api_version::APIVersionProvider,
+    crypto_helper::{KesSigner, KesSignerStandard, ProtocolAggregateVerificationKeyForConcatenation, ProtocolSignerVerificationKeyForConcatenation},
+    entities::{
+        BlockNumber, ChainPoint, Epoch, ProtocolMessage, ProtocolMessagePartKey, ProtocolParameters,
+        SignedEntityType, SignedEntityTypeDiscriminants, SignerWithStake, SingleSignature, SingleSignatureAuthenticationStatus,
+        SlotNumber, StakeDistribution, SupportedEra, TimePoint,
+    },
+    messages::{RegisterSignatureMessageHttp, RegisterSignerMessage, SignedEntityTypeMessage, SignerMessagePart},
+    protocol::SignerBuilder,
+    signable_builder::{
+        CardanoBlocksTransactionsSignableBuilder, CardanoStakeDistributionSignableBuilder, CardanoTransactionsSignableBuilder,
+        MithrilSignableBuilderService, MithrilStakeDistributionSignableBuilder, SignableBuilder,
+        SignableBuilderServiceDependencies, StakeDistributionRetriever,
+    },
+    test::{builder::MithrilFixtureBuilder, double::Dummy},
+};
+use mithril_era::{EraChecker, EraMarker, EraReader, adapters::EraReaderDummyAdapter};
+use mithril_persistence::sqlite::SqliteConnection;
+use mithril_protocol_config::{
+    http::HttpMithrilNetworkConfigurationProvider,
+    model::{MithrilNetworkConfigurationForEpoch, SignedEntityTypeConfiguration},
+    test::double::FakeMithrilNetworkConfigurationProviderWithEpochMarkers,
+};
+use mithril_signed_entity_lock::SignedEntityTypeLock;
+use mithril_signed_entity_preloader::{CardanoTransactionsPreloader, CardanoTransactionsPreloaderActivation};
+use mithril_signer::{
+    Configuration, MetricsService, RuntimeError, SignerRunner, SignerState, StateMachine,
+    database::repository::{ProtocolInitializerRepository, SignedBeaconRepository, SignerCardanoChainDataRepository, StakePoolStore},
+    dependency_injection::{DependenciesBuilder, SignerDependencyContainer},
+    entities::BeaconToSign,
+    services::{
+        EpochPruningTask, MithrilEpochService, MithrilSingleSigner, SignaturePublishRetryPolicy, SignaturePublisher,
+        SignaturePublisherDelayer, SignaturePublisherNoop, SignaturePublisherRetrier, SignedBeaconStore, SignerCertifierService,
+        SignerChainDataImporter, SignerSignableSeedBuilder, SignerSignedEntityConfigProvider, SignerUpkeepService,
+    },
+    store::{MKTreeStoreSqlite, ProtocolInitializerStorer},
+};
+use mithril_ticker::{MithrilTickerService, TickerService};
+
+// ------------------------------------------------------------------------------------------- logging
+
+static LOST: AtomicBool = AtomicBool::new(false);
+static VERBOSE: AtomicBool = AtomicBool::new(false);
+
+struct Recorder;
+impl slog::Drain for Recorder {
+    type Ok = ();
+    type Err = slog::Never;
+    fn log(&self, record: &slog::Record, _values: &slog::OwnedKVList) -> Result<(), slog::Never> {
+        if record.level().is_at_least(slog::Level::Warning) {
+            let m = format!("{}", record.msg());
+            if m.contains("all lotteries were lost") {
+                LOST.store(true, Ordering::SeqCst);
+            }
+            if VERBOSE.load(Ordering::Relaxed) {
+                eprintln!("[{}] {}", record.level(), m);
+            }
+        } else if VERBOSE.load(Ordering::Relaxed) && record.level().is_at_least(slog::Level::Info) {
+            eprintln!("[{}] {}", record.level(), record.msg());
+        }
+        Ok(())
+    }
+}
+fn logger() -> slog::Logger {
+    slog::Logger::root(Arc::new(slog::Fuse(Recorder)), slog::o!())
+}
+
+// ------------------------------------------------------------------------------------------- proxy
+
+#[derive(Default, Clone, Debug)]
+struct Faults {
+    down: bool,
+    round_closed: bool,
+    reg_fail: bool,
+    reg_drop: bool,
+    pub_fail: u64,
+}
+
+#[derive(Clone)]
+struct PostRec {
+    rec_epoch: u64,
+    vk: String,
+    delivered: bool,
+}
+
+#[derive(Default)]
+struct ProxyLog {
+    posts: Vec<PostRec>,
+    pubs: Vec<RegisterSignatureMessageHttp>,
+    pub_attempts: u64,
+}
+
+#[derive(Clone)]
+struct ProxyState {
+    faults: Arc<Mutex<Faults>>,
+    log: Arc<Mutex<ProxyLog>>,
+    upstream: String,
+    client: reqwest::Client,
+}
+
+fn status(code: u16) -> axum::response::Response {
+    let mut r = axum::response::Response::new(axum::body::Body::from("\"injected\""));
+    *r.status_mut() = axum::http::StatusCode::from_u16(code).unwrap();
+    r.headers_mut().insert("content-type", "application/json".parse().unwrap());
+    r
+}
+
+async fn proxy(axum::extract::State(st): axum::extract::State<ProxyState>, req: axum::extract::Request) -> axum::response::Response {
+    let (parts, body) = req.into_parts();
+    let bytes = match axum::body::to_bytes(body, 64 << 20).await {
+        Ok(b) => b,
+        Err(_) => return status(400),
+    };
+    let path = parts.uri.path().to_string();
+    let mut sig_msg: Option<RegisterSignatureMessageHttp> = None;
+    {
+        let mut f = st.faults.lock().unwrap();
+        if f.down {
+            return status(500);
+        }
+        if path == "/register-signer" {
+            let m: RegisterSignerMessage = match serde_json::from_slice(&bytes) {
+                Ok(m) => m,
+                Err(_) => return status(400),
+            };
+            let verdict = if f.round_closed {
+                Some(550)
+            } else if f.reg_fail {
+                Some(500)
+            } else if f.reg_drop {
+                Some(201)
+            } else {
+                None
+            };
+            st.log.lock().unwrap().posts.push(PostRec {
+                rec_epoch: m.epoch.0,
+                vk: m.verification_key_for_concatenation.clone(),
+                delivered: verdict.is_none(),
+            });
+            if let Some(code) = verdict {
+                return status(code);
+            }
+        }
+        if path == "/register-signatures" {
+            st.log.lock().unwrap().pub_attempts += 1;
+            if f.pub_fail > 0 {
+                f.pub_fail -= 1;
+                return status(500);
+            }
+            sig_msg = serde_json::from_slice(&bytes).ok();
+            if sig_msg.is_none() {
+                return status(400);
+            }
+        }
+    }
+    let url = format!("{}{}", st.upstream.trim_end_matches('/'), parts.uri.path_and_query().map(|p| p.as_str()).unwrap_or("/"));
+    let mut rb = st.client.request(parts.method.clone(), url);
+    for (k, v) in parts.headers.iter() {
+        let n = k.as_str();
+        if n != "host" && n != "content-length" {
+            rb = rb.header(k, v);
+        }
+    }
+    let resp = match rb.body(bytes.to_vec()).send().await {
+        Ok(r) => r,
+        Err(_) => return status(502),
+    };
+    let code = resp.status();
+    let headers = resp.headers().clone();
+    let body = resp.bytes().await.unwrap_or_default();
+    if let Some(m) = sig_msg {
+        if code.is_success() {
+            st.log.lock().unwrap().pubs.push(m);
+        }
+    }
+    let mut r = axum::response::Response::new(axum::body::Body::from(body));
+    *r.status_mut() = code;
+    for (k, v) in headers.iter() {
+        let n = k.as_str();
+        if n != "content-length" && n != "transfer-encoding" && n != "connection" {
+            r.headers_mut().insert(k.clone(), v.clone());
+        }
+    }
+    r
+}
+
+// ------------------------------------------------------------------------------------------- fault-injecting store decorator
+
+struct FaultyBeaconStore {
+    inner: Arc<SignedBeaconRepository>,
+    mark_fail: Arc<AtomicU64>,
+    mark_failed: Arc<AtomicU64>,
+}
+
+#[async_trait]
+impl SignedBeaconStore for FaultyBeaconStore {
+    async fn filter_out_already_signed_entities(&self, entities: Vec<SignedEntityType>) -> StdResult<Vec<SignedEntityType>> {
+        self.inner.filter_out_already_signed_entities(entities).await
+    }
+    async fn mark_beacon_as_signed(&self, entity: &BeaconToSign) -> StdResult<()> {
+        if self.mark_fail.load(Ordering::SeqCst) > 0 {
+            self.mark_fail.fetch_sub(1, Ordering::SeqCst);
+            self.mark_failed.fetch_add(1, Ordering::SeqCst);
+            anyhow::bail!("injected: signed beacon store unavailable");
+        }
+        self.inner.mark_beacon_as_signed(entity).await
+    }
+}
+
+// ------------------------------------------------------------------------------------------- world
+
+const N_PARTIES: usize = 5;
+
+fn stake_of(party: usize, version: u64) -> u64 {
+    (party as u64 + 1) * 1000 + version * 7 * (party as u64 % 3 + 1)
+}
+fn version_of_own_stake(stake: u64) -> u64 {
+    (stake - 1000) / 7
+}
+
+struct Fixture {
+    signers: Vec<SignerWithStake>, // base fixture signers (party 0 = the signer under test's party id)
+}
+
+struct World {
+    dir: PathBuf,
+    chain: Arc<FakeChainObserver>,
+    imm: Arc<DumbImmutableFileObserver>,
+    ticker: Arc<MithrilTickerService>,
+    agg_chain: Arc<FakeChainObserver>,
+    fake_agg: Arc<FakeAggregatorHttpServer>,
+    proxy_url: String,
+    proxy_task: tokio::task::JoinHandle<()>,
+    faults: Arc<Mutex<Faults>>,
+    plog: Arc<Mutex<ProxyLog>>,
+    mark_fail: Arc<AtomicU64>,
+    mark_failed: Arc<AtomicU64>,
+    party_id: String,
+    params: ProtocolParameters,
+    attempts: u8,
+    retention: Option<usize>,
+    base: Vec<SignerWithStake>,
+}
+
+struct Incarnation {
+    sm: Arc<StateMachine>,
+    conn: Arc<SqliteConnection>,
+    ini_store: Arc<ProtocolInitializerRepository>,
+}
+
+fn signers_with_version(base: &[SignerWithStake], v: u64) -> Vec<SignerWithStake> {
+    base.iter()
+        .enumerate()
+        .map(|(i, s)| {
+            let mut s = s.clone();
+            s.stake = stake_of(i, v);
+            s
+        })
+        .collect()
+}
+
+impl World {
+    async fn new(name: &str, fx: &Fixture, e0: u64, imm0: u64, sv0: u64, params: ProtocolParameters, attempts: u8,
+                 retention: Option<usize>, cfg: &[(u64, Vec<SignedEntityTypeDiscriminants>)]) -> World {
+        let dir = mithril_common::test::TempDir::create("c20", name);
+        let tp = |e: u64| TimePoint {
+            epoch: Epoch(e),
+            immutable_file_number: imm0,
+            chain_point: ChainPoint { slot_number: SlotNumber(100), block_number: BlockNumber(100), block_hash: "block_hash-100".to_string() },
+        };
+        let chain = Arc::new(FakeChainObserver::new(Some(tp(e0))));
+        chain.set_signers(signers_with_version(&fx.signers, sv0)).await;
+        let imm = Arc::new(DumbImmutableFileObserver::new());
+        imm.shall_return(Some(imm0)).await;
+        let ticker = Arc::new(MithrilTickerService::new(chain.clone(), imm.clone()));
+
+        let agg_chain = Arc::new(FakeChainObserver::new(Some(tp(e0))));
+        let agg_imm = Arc::new(DumbImmutableFileObserver::new());
+        agg_imm.shall_return(Some(imm0)).await;
+        let agg_ticker = Arc::new(MithrilTickerService::new(agg_chain.clone(), agg_imm));
+        let fake_agg = Arc::new(
+            FakeAggregatorHttpServer::spawn(agg_ticker, Arc::new(FakeMithrilNetworkConfigurationProviderWithEpochMarkers::default()), logger())
+                .expect("fake aggregator"),
+        );
+        fake_agg.release_epoch_settings().await;
+        for (e, ds) in cfg {
+            fake_agg
+                .set_network_configuration_marker(
+                    Epoch(*e),
+                    MithrilNetworkConfigurationForEpoch {
+                        protocol_parameters: params.clone(),
+                        enabled_signed_entity_types: ds.iter().cloned().collect::<BTreeSet<_>>(),
+                        signed_entity_types_config: SignedEntityTypeConfiguration { cardano_transactions: None, cardano_blocks_transactions: None },
+                    },
+                )
+                .await;
+        }
+
+        let faults = Arc::new(Mutex::new(Faults::default()));
+        let plog = Arc::new(Mutex::new(ProxyLog::default()));
+        let st = ProxyState { faults: faults.clone(), log: plog.clone(), upstream: fake_agg.url().to_string(), client: reqwest::Client::new() };
+        let listener = tokio::net::TcpListener::bind("127.0.0.1:0").await.expect("bind proxy");
+        let addr = listener.local_addr().unwrap();
+        let app = axum::Router::new().fallback(proxy).with_state(st);
+        let proxy_task = tokio::spawn(async move {
+            let _ = axum::serve(listener, app).await;
+        });
+        World {
+            dir,
+            chain,
+            imm,
+            ticker,
+            agg_chain,
+            fake_agg,
+            proxy_url: format!("http://{}/", addr),
+            proxy_task,
+            faults,
+            plog,
+            mark_fail: Arc::new(AtomicU64::new(0)),
+            mark_failed: Arc::new(AtomicU64::new(0)),
+            party_id: fx.signers[0].party_id.clone(),
+            params,
+            attempts,
+            retention,
+            base: fx.signers.clone(),
+        }
+    }
+
+    /// build every service of the signer from scratch on the database files of this world (start or restart)
+    async fn start_signer(&self) -> Incarnation {
+        let config = Configuration {
+            db_directory: self.dir.join("db"),
+            data_stores_directory: self.dir.join("stores"),
+            store_retention_limit: self.retention,
+            ..Configuration::new_sample(&self.party_id)
+        };
+        let logger = logger();
+        let dependencies_builder = DependenciesBuilder::new(&config, logger.clone());
+        let sqlite_connection = Arc::new(dependencies_builder.build_main_sqlite_connection("signer.db").await.expect("main db"));
+        let sqlite_connection_cardano_transaction_pool =
+            dependencies_builder.build_cardano_tx_sqlite_connection_pool("cardano_tx.db", 1).await.map(Arc::new).expect("tx db");
+        let retention = config.store_retention_limit.map(|l| l as u64);
+
+        let chain_observer = self.chain.clone();
+        let ticker_service = self.ticker.clone();
+        let digester = Arc::new(DumbImmutableDigester::default().with_digest("DIGEST"));
+        let protocol_initializer_store = Arc::new(ProtocolInitializerRepository::new(sqlite_connection.clone(), retention));
+        let stake_store = Arc::new(StakePoolStore::new(sqlite_connection.clone(), retention));
+        let era_reader_adapter = Arc::new(EraReaderDummyAdapter::from_markers(vec![EraMarker {
+            name: SupportedEra::dummy().to_string(),
+            epoch: Some(Epoch(0)),
+        }]));
+        let era_reader = Arc::new(EraReader::new(era_reader_adapter.clone()));
+        let era_epoch_token = era_reader.read_era_epoch_token(ticker_service.get_current_epoch().await.unwrap()).await.unwrap();
+        let era_checker = Arc::new(EraChecker::new(era_epoch_token.get_current_supported_era().unwrap(), era_epoch_token.get_current_epoch()));
+        let api_version_provider = Arc::new(APIVersionProvider::new(era_checker.clone()));
+
+        let mithril_stake_distribution_signable_builder = Arc::new(MithrilStakeDistributionSignableBuilder::default());
+        let block_scanner = Arc::new(DumbBlockScanner::new());
+        let chain_data_store = Arc::new(SignerCardanoChainDataRepository::new(sqlite_connection_cardano_transaction_pool.clone()));
+        let transactions_importer = Arc::new(SignerChainDataImporter::new(Arc::new(CardanoChainDataImporter::new(
+            block_scanner.clone(),
+            chain_data_store.clone(),
+            logger.clone(),
+        ))));
+        let block_range_root_retriever = chain_data_store.clone();
+        let cardano_transactions_builder =
+            Arc::new(CardanoTransactionsSignableBuilder::<MKTreeStoreSqlite>::new(transactions_importer.clone(), block_range_root_retriever.clone()));
+        let cardano_blocks_transactions_builder =
+            Arc::new(CardanoBlocksTransactionsSignableBuilder::<MKTreeStoreSqlite>::new(transactions_importer.clone(), block_range_root_retriever));
+        let cardano_stake_distribution_builder = Arc::new(CardanoStakeDistributionSignableBuilder::new(stake_store.clone()));
+        let cardano_database_signable_builder = Arc::new(CardanoDatabaseSignableBuilder::new(digester.clone(), Path::new(""), logger.clone()));
+        let epoch_service = Arc::new(tokio::sync::RwLock::new(MithrilEpochService::new(
+            era_checker.clone(),
+            stake_store.clone(),
+            protocol_initializer_store.clone(),
+            logger.clone(),
+        )));
+        let single_signer = Arc::new(MithrilSingleSigner::new(config.party_id.to_owned().unwrap_or_default(), epoch_service.clone(), logger.clone()));
+        let signable_seed_builder_service = Arc::new(SignerSignableSeedBuilder::new(epoch_service.clone(), protocol_initializer_store.clone()));
+        let signable_builders_dependencies = SignableBuilderServiceDependencies::new(
+            mithril_stake_distribution_signable_builder,
+            cardano_transactions_builder,
+            cardano_blocks_transactions_builder,
+            cardano_stake_distribution_builder,
+            cardano_database_signable_builder,
+        );
+        let signable_builder_service =
+            Arc::new(MithrilSignableBuilderService::new(signable_seed_builder_service, signable_builders_dependencies, logger.clone()));
+        let metrics_service = Arc::new(MetricsService::new(logger.clone()).unwrap());
+        let signed_entity_type_lock = Arc::new(SignedEntityTypeLock::default());
+        let cardano_transactions_preloader = Arc::new(CardanoTransactionsPreloader::new(
+            signed_entity_type_lock.clone(),
+            transactions_importer.clone(),
+            BlockNumber(0),
+            chain_observer.clone(),
+            logger.clone(),
+            Arc::new(CardanoTransactionsPreloaderActivation::new(true)),
+        ));
+        let signed_beacon_repository = Arc::new(SignedBeaconRepository::new(sqlite_connection.clone(), retention));
+        // pruning tasks as in the production dependency builder
+        let upkeep_service = Arc::new(SignerUpkeepService::new(
+            sqlite_connection.clone(),
+            sqlite_connection_cardano_transaction_pool,
+            signed_entity_type_lock.clone(),
+            vec![
+                signed_beacon_repository.clone() as Arc<dyn EpochPruningTask>,
+                stake_store.clone() as Arc<dyn EpochPruningTask>,
+                protocol_initializer_store.clone() as Arc<dyn EpochPruningTask>,
+            ],
+            logger.clone(),
+        ));
+        let aggregator_client = AggregatorHttpClient::builder(self.proxy_url.clone()).with_logger(logger.clone()).build().map(Arc::new).expect("client");
+        let network_configuration_service = Arc::new(HttpMithrilNetworkConfigurationProvider::new(aggregator_client.clone(), logger.clone()));
+        // publisher wiring as in the production dependency builder (no DMQ): delayer(retrier(noop), retrier(http))
+        let signature_publisher: Arc<dyn SignaturePublisher> = Arc::new(SignaturePublisherDelayer::new(
+            Arc::new(SignaturePublisherRetrier::new(Arc::new(SignaturePublisherNoop), SignaturePublishRetryPolicy::never())),
+            Arc::new(SignaturePublisherRetrier::new(
+                aggregator_client.clone(),
+                SignaturePublishRetryPolicy { attempts: self.attempts, delay_between_attempts: Duration::from_millis(1) },
+            )),
+            Duration::from_millis(1),
+            logger.clone(),
+        ));
+        let beacon_store = Arc::new(FaultyBeaconStore {
+            inner: signed_beacon_repository.clone(),
+            mark_fail: self.mark_fail.clone(),
+            mark_failed: self.mark_failed.clone(),
+        });
+        let certifier = Arc::new(SignerCertifierService::new(
+            beacon_store,
+            Arc::new(SignerSignedEntityConfigProvider::new(epoch_service.clone())),
+            signed_entity_type_lock.clone(),
+            single_signer.clone(),
+            signature_publisher,
+            logger.clone(),
+        ));
+        let kes_signer = Some(Arc::new(KesSignerStandard::new(
+            config.kes_secret_key_path.clone().expect("kes key of the fixture"),
+            config.operational_certificate_path.clone().expect("opcert of the fixture"),
+        )) as Arc<dyn KesSigner>);
+
+        let services = SignerDependencyContainer {
+            signers_registration_retriever: aggregator_client.clone(),
+            ticker_service: ticker_service.clone(),
+            chain_observer: chain_observer.clone(),
+            digester: digester.clone(),
+            protocol_initializer_store: protocol_initializer_store.clone(),
+            single_signer: single_signer.clone(),
+            stake_store: stake_store.clone(),
+            era_checker: era_checker.clone(),
+            era_reader,
+            api_version_provider,
+            signable_builder_service,
+            metrics_service: metrics_service.clone(),
+            signed_entity_type_lock: Arc::new(SignedEntityTypeLock::default()),
+            cardano_transactions_preloader,
+            upkeep_service,
+            epoch_service,
+            certifier,
+            signer_registration_publisher: aggregator_client.clone(),
+            kes_signer,
+            network_configuration_service,
+        };
+        let runner = Box::new(SignerRunner::new(config, services, logger.clone()));
+        let sm = Arc::new(StateMachine::new(SignerState::Init, runner, Duration::from_secs(5), metrics_service, logger));
+        Incarnation { sm, conn: sqlite_connection, ini_store: protocol_initializer_store }
+    }
+}
+
+impl Drop for World {
+    fn drop(&mut self) {
+        self.proxy_task.abort();
+        let _ = std::fs::remove_dir_all(&self.dir);
+    }
+}
+
+// ------------------------------------------------------------------------------------------- events
+
+#[derive(Clone, Debug)]
+enum Ev {
+    Tick,
+    Restart,
+    EpochUp(u64),
+    AggEpochUp,
+    ImmUp(u64),
+    RegOthers(Vec<usize>), // parties (0 = impostor registration under the signer's party id with the fixture key)
+    Down(bool),
+    RoundClosed(bool),
+    RegFail(bool),
+    RegDrop(bool),
+    PubFail(u64),
+    MarkFail(u64),
+}
+
+fn disc_letter(d: &SignedEntityTypeDiscriminants) -> &'static str {
+    match d {
+        SignedEntityTypeDiscriminants::MithrilStakeDistribution => "m",
+        SignedEntityTypeDiscriminants::CardanoStakeDistribution => "c",
+        SignedEntityTypeDiscriminants::CardanoDatabase => "d",
+        _ => "x",
+    }
+}
+
+fn show_entity(e: &SignedEntityType) -> String {
+    match e {
+        SignedEntityType::MithrilStakeDistribution(ep) => format!("m{}", ep.0),
+        SignedEntityType::CardanoStakeDistribution(ep) => format!("c{}", ep.0),
+        SignedEntityType::CardanoDatabase(b) => format!("d{}.{}", b.epoch.0, b.immutable_file_number),
+        other => format!("x{:?}", other).replace([' ', ',', '(', ')', '[', ']'], "_"),
+    }
+}
+
+struct RunCfg {
+    e0: u64,
+    imm0: u64,
+    sv0: u64,
+    cfg: Vec<(u64, Vec<SignedEntityTypeDiscriminants>)>,
+    attempts: u8,
+    retention: Option<usize>,
+    params: ProtocolParameters,
+}
+
+/// everything observed in one run
+struct RunOut {
+    req: String,
+    imp: String,
+    sfails: Vec<(String, String)>,
+    n_pubs: usize,
+    n_posts: usize,
+    n_lost: usize,
+    n_restarts: usize,
+    n_mark_failed: u64,
+    epochs: u64,
+    n_events: usize,
+    states: BTreeSet<String>,
+    results: BTreeMap<String, u64>,
+}
+
+/// the harness's own bookkeeping of the environment (used by the generator and by S, never by K)
+struct Book {
+    epoch: u64,
+    agg_epoch: u64,
+    imm: u64,
+    stake_ver: u64,
+    stake_ver_of_epoch: BTreeMap<u64, u64>,
+    registered_others: BTreeMap<u64, BTreeSet<usize>>, // recording epoch -> parties registered by the harness
+    key_ids: HashMap<String, u64>,
+    next_key: u64,
+    faults: Faults,
+    mark_fail: u64,
+    dropped_recs: BTreeSet<u64>,   // recording epochs for which the signer's registration was silently dropped
+    impostor_recs: BTreeSet<u64>,  // recording epochs with a registration of another key under the signer's party id
+}
+
+struct Runner<'a> {
+    w: &'a World,
+    inc: Option<Incarnation>,
+    book: Book,
+    evs: Vec<String>,
+    obs: Vec<String>,
+    seen_posts: usize,
+    seen_pubs: usize,
+    out: RunOut,
+    /// entity -> (event index of the previous publication, mark failed right after it)
+    published: HashMap<String, (usize, bool)>,
+    prev_beacons: Vec<String>,
+    cfg: &'a RunCfg,
+}
+
+impl<'a> Runner<'a> {
+    fn key_id(&mut self, vk: &str) -> u64 {
+        if let Some(k) = self.book.key_ids.get(vk) {
+            return *k;
+        }
+        let k = self.book.next_key;
+        self.book.next_key += 1;
+        self.book.key_ids.insert(vk.to_string(), k);
+        k
+    }
+
+    async fn apply(&mut self, ev: &Ev) {
+        let w = self.w;
+        let mut res = "-".to_string();
+        let mut lost_now = false;
+        let mark_failed_before = w.mark_failed.load(Ordering::SeqCst);
+        let ev_text = match ev {
+            Ev::Tick => {
+                LOST.store(false, Ordering::SeqCst);
+                // the cycle runs in its own task so that a panic of the signer is an outcome, not the end of the harness
+                let sm = self.inc.as_ref().unwrap().sm.clone();
+                let r = tokio::spawn(async move { sm.cycle().await }).await;
+                res = match r {
+                    Ok(Ok(())) => "ok".to_string(),
+                    Ok(Err(e @ RuntimeError::KeepState { .. })) => {
+                        if VERBOSE.load(Ordering::Relaxed) {
+                            eprintln!("keep-state: {:?}", e);
+                        }
+                        "keep".to_string()
+                    }
+                    Ok(Err(RuntimeError::Critical { .. })) => "crit".to_string(),
+                    Err(_) => {
+                        let n = self.evs.len();
+                        self.sfail("panic", format!("event {n}: the signer's cycle panicked"));
+                        "panic".to_string()
+                    }
+                };
+                let lost = LOST.swap(false, Ordering::SeqCst);
+                if lost {
+                    self.out.n_lost += 1;
+                }
+                lost_now = lost;
+                // the proxy consumed part of the failure budget
+                self.book.faults.pub_fail = w.faults.lock().unwrap().pub_fail;
+                self.book.mark_fail = w.mark_fail.load(Ordering::SeqCst);
+                format!("(t,{})", lost as u8)
+            }
+            Ev::Restart => {
+                self.inc = None; // drops the state machine, every service and the sqlite connections
+                self.inc = Some(w.start_signer().await);
+                self.out.n_restarts += 1;
+                "(rs)".to_string()
+            }
+            Ev::EpochUp(v) => {
+                let e = w.chain.next_epoch().await.expect("epoch");
+                w.chain.set_signers(signers_with_version(&w.base, *v)).await;
+                self.book.epoch = e.0;
+                self.book.stake_ver = *v;
+                self.book.stake_ver_of_epoch.insert(e.0, *v);
+                format!("(eu,{})", v)
+            }
+            Ev::AggEpochUp => {
+                let e = w.agg_chain.next_epoch().await.expect("epoch");
+                self.book.agg_epoch = e.0;
+                "(au)".to_string()
+            }
+            Ev::ImmUp(n) => {
+                self.book.imm += n;
+                w.imm.shall_return(Some(self.book.imm)).await;
+                format!("(iu,{})", n)
+            }
+            Ev::RegOthers(ps) => {
+                let rec = self.book.agg_epoch + 1;
+                let mut items = vec![];
+                for p in ps {
+                    let signer: mithril_common::entities::Signer = w.base[*p].clone().into();
+                    let part: SignerMessagePart = signer.into();
+                    w.fake_agg.register_signer(Epoch(rec), part).await;
+                    self.book.registered_others.entry(rec).or_default().insert(*p);
+                    if *p == 0 {
+                        self.book.impostor_recs.insert(rec);
+                    }
+                    items.push(format!("({},{})", p, 1000 + p));
+                }
+                format!("(ro,[{}])", items.join(","))
+            }
+            Ev::Down(b) => {
+                w.faults.lock().unwrap().down = *b;
+                self.book.faults.down = *b;
+                format!("(dn,{})", *b as u8)
+            }
+            Ev::RoundClosed(b) => {
+                w.faults.lock().unwrap().round_closed = *b;
+                self.book.faults.round_closed = *b;
+                format!("(rc,{})", *b as u8)
+            }
+            Ev::RegFail(b) => {
+                w.faults.lock().unwrap().reg_fail = *b;
+                self.book.faults.reg_fail = *b;
+                format!("(rf,{})", *b as u8)
+            }
+            Ev::RegDrop(b) => {
+                w.faults.lock().unwrap().reg_drop = *b;
+                self.book.faults.reg_drop = *b;
+                format!("(rd,{})", *b as u8)
+            }
+            Ev::PubFail(n) => {
+                w.faults.lock().unwrap().pub_fail = *n;
+                self.book.faults.pub_fail = *n;
+                format!("(pf,{})", n)
+            }
+            Ev::MarkFail(n) => {
+                w.mark_fail.store(*n, Ordering::SeqCst);
+                self.book.mark_fail = *n;
+                format!("(mf,{})", n)
+            }
+        };
+        let idx = self.evs.len();
+        self.evs.push(ev_text);
+        *self.out.results.entry(res.clone()).or_insert(0) += 1;
+        let mark_failed_now = w.mark_failed.load(Ordering::SeqCst) > mark_failed_before;
+
+        // ---- observation
+        let (posts, pubs): (Vec<PostRec>, Vec<RegisterSignatureMessageHttp>) = {
+            let l = w.plog.lock().unwrap();
+            (l.posts[self.seen_posts..].to_vec(), l.pubs[self.seen_pubs..].to_vec())
+        };
+        self.seen_posts += posts.len();
+        self.seen_pubs += pubs.len();
+        let post_keys: Vec<u64> = posts.iter().map(|p| self.key_id(&p.vk)).collect();
+        for p in posts.iter() {
+            if !p.delivered && self.book.faults.reg_drop && !self.book.faults.round_closed && !self.book.faults.reg_fail {
+                self.book.dropped_recs.insert(p.rec_epoch);
+            }
+        }
+        let inc = self.inc.as_ref().unwrap();
+        let label = match inc.sm.get_state().await {
+            SignerState::Init => "I".to_string(),
+            SignerState::Unregistered { epoch } => format!("U{}", epoch.0),
+            SignerState::ReadyToSign { epoch } => format!("R{}", epoch.0),
+            SignerState::RegisteredNotAbleToSign { epoch } => format!("N{}", epoch.0),
+        };
+        self.out.states.insert(label.chars().next().unwrap().to_string());
+        let mut o = String::new();
+        let _ = write!(o, "{}/{}/r[", label, res);
+        for (i, p) in posts.iter().enumerate() {
+            let _ = write!(o, "{}({},{},{})", if i > 0 { "," } else { "" }, p.rec_epoch, post_keys[i], p.delivered as u8);
+        }
+        o.push_str("]/p[");
+        for (i, m) in pubs.iter().enumerate() {
+            let e = match &m.signed_entity_type {
+                SignedEntityTypeMessage::Known(e) => show_entity(e),
+                _ => "unknown".to_string(),
+            };
+            let _ = write!(o, "{}{}", if i > 0 { "," } else { "" }, e);
+        }
+        o.push_str("]/i[");
+        // protocol_initializer table through the store API, mapped to key numbers
+        let inis = inc.ini_store.get_last_protocol_initializer(10_000).await.unwrap_or_default();
+        let mut ini_pairs: Vec<(u64, u64)> = vec![];
+        for (e, pi) in inis.iter() {
+            let vk: ProtocolSignerVerificationKeyForConcatenation = pi.verification_key_for_concatenation().into();
+            let k = vk.to_json_hex().ok().and_then(|h| self.book.key_ids.get(&h).cloned()).unwrap_or(9999);
+            ini_pairs.push((e.0, k));
+        }
+        ini_pairs.sort();
+        o.push_str(&ini_pairs.iter().map(|(e, k)| format!("({},{})", e, k)).collect::<Vec<_>>().join(","));
+        o.push_str("]/s[");
+        let mut stake_pairs: Vec<(u64, u64)> = vec![];
+        {
+            let mut st = inc.conn.prepare("select epoch, stake from stake_pool where stake_pool_id = ? order by epoch").unwrap();
+            st.bind((1, w.party_id.as_str())).unwrap();
+            while let Ok(sqlite::State::Row) = st.next() {
+                let e: i64 = st.read(0).unwrap();
+                let s: i64 = st.read(1).unwrap();
+                stake_pairs.push((e as u64, version_of_own_stake(s as u64)));
+            }
+        }
+        stake_pairs.sort();
+        o.push_str(&stake_pairs.iter().map(|(e, k)| format!("({},{})", e, k)).collect::<Vec<_>>().join(","));
+        let mut beacons: Vec<String> = vec![];
+        {
+            let mut st = inc.conn.prepare("select epoch, signed_entity_type_id, beacon from signed_beacon order by rowid").unwrap();
+            while let Ok(sqlite::State::Row) = st.next() {
+                let e: i64 = st.read(0).unwrap();
+                let t: i64 = st.read(1).unwrap();
+                let b: String = st.read(2).unwrap();
+                let ent = match t {
+                    0 => format!("m{}", b.trim()),
+                    1 => format!("c{}", b.trim()),
+                    4 => {
+                        let v: serde_json::Value = serde_json::from_str(&b).unwrap_or_default();
+                        format!("d{}.{}", v["epoch"], v["immutable_file_number"])
+                    }
+                    _ => format!("x{}", t),
+                };
+                beacons.push(format!("{}:{}", e, ent));
+            }
+        }
+        let _ = write!(o, "]/b{}", beacons.len());
+        self.obs.push(o);
+        self.obs.push(beacons.join(",")); // kept aside; only the last one is printed
+        let beacons = beacons;
+
+        // ---- S: the property evaluated on what the real signer did
+        for m in pubs.iter() {
+            self.out.n_pubs += 1;
+            self.check_publication(idx, m, mark_failed_now).await;
+        }
+        self.out.n_posts += posts.len();
+        // a beacon is marked as signed only once its signature reached the aggregator (or no lottery was won)
+        let new_rows: Vec<String> = beacons.iter().filter(|b| !self.prev_beacons.contains(*b)).cloned().collect();
+        for row in new_rows {
+            let ent = row.split(':').nth(1).unwrap_or("").to_string();
+            if !self.published.contains_key(&ent) && !lost_now {
+                self.sfail("marked-without-publication", format!("event {idx}: {ent} is marked as signed but the aggregator never received its signature"));
+            }
+        }
+        self.prev_beacons = beacons;
+    }
+
+    fn sfail(&mut self, class: &str, what: String) {
+        self.out.sfails.push((class.to_string(), what));
+    }
+
+    /// the signer set an aggregator derives for signing epoch `t` from the registrations it received, under the protocol's
+    /// offsets: recorded under `t + RETRIEVAL(-1)`, i.e. sent during `t - 2`, with the stake distribution of epoch `t - 2`
+    async fn reference_signers(&self, list_epoch: u64, stake_epoch: u64) -> Result<Vec<SignerWithStake>, String> {
+        let parts = self.w.fake_agg.get_registered_signers(&Epoch(list_epoch)).await.unwrap_or_default();
+        let signers = SignerMessagePart::try_into_signers(parts).map_err(|e| format!("registrations do not decode: {e}"))?;
+        let ver = *self.book.stake_ver_of_epoch.get(&stake_epoch).ok_or(format!("no stake distribution known for epoch {stake_epoch}"))?;
+        let mut out = vec![];
+        for s in signers {
+            let party = self.w.base.iter().position(|b| b.party_id == s.party_id).ok_or("unknown party")?;
+            out.push(SignerWithStake::from_signer(s, stake_of(party, ver)));
+        }
+        Ok(out)
+    }
+
+    async fn check_publication(&mut self, idx: usize, m: &RegisterSignatureMessageHttp, mark_failed_now: bool) {
+        let entity = match &m.signed_entity_type {
+            SignedEntityTypeMessage::Known(e) => e.clone(),
+            _ => {
+                self.sfail("unknown-entity", format!("event {idx}: unknown signed entity type published"));
+                return;
+            }
+        };
+        let name = show_entity(&entity);
+        let t = self.book.epoch;
+        // (1) at most one signature per signed entity and beacon
+        if let Some((prev_idx, prev_mark_failed)) = self.published.get(&name).cloned() {
+            if prev_mark_failed {
+                self.sfail(
+                    "republish-after-mark-failure",
+                    format!("event {idx}: {name} published again; the previous publication (event {prev_idx}) was followed by a failed mark_beacon_as_signed"),
+                );
+            } else {
+                self.sfail("republish", format!("event {idx}: {name} published twice (first at event {prev_idx})"));
+            }
+        }
+        self.published.insert(name.clone(), (idx, mark_failed_now));
+        // the entity belongs to the current epoch
+        if entity.get_epoch_when_signed_entity_type_is_signed().0 != t {
+            self.sfail("wrong-epoch-entity", format!("event {idx}: {name} published while the chain is at epoch {t}"));
+        }
+        if m.party_id != self.w.party_id {
+            self.sfail("wrong-party", format!("event {idx}: signature published for party {}", m.party_id));
+        }
+        // (3) a registration of this signer, eligible for the current epoch, exists: sent two epochs ago for recording epoch t-1
+        let own_vk: Option<String> = {
+            let l = self.w.plog.lock().unwrap();
+            l.posts.iter().rev().find(|p| p.delivered && p.rec_epoch + 1 == t).map(|p| p.vk.clone())
+        };
+        if own_vk.is_none() {
+            self.sfail("unregistered-publish", format!("event {idx}: {name} published at epoch {t} but no registration was delivered for recording epoch {}", t.saturating_sub(1)));
+        }
+        // (2) accepted by an aggregator that derived its signer set from the same registrations under the offsets
+        if t < 2 {
+            self.sfail("unregistered-publish", format!("event {idx}: publication at epoch {t} < 2"));
+            return;
+        }
+        let cur = match self.reference_signers(t - 1, t - 2).await {
+            Ok(v) if !v.is_empty() => v,
+            Ok(_) => {
+                self.sfail("rejected", format!("event {idx}: {name}: the aggregator has no signer registered for epoch {t}"));
+                return;
+            }
+            Err(e) => {
+                self.sfail("rejected", format!("event {idx}: {name}: {e}"));
+                return;
+            }
+        };
+        if let Some(vk) = &own_vk {
+            let listed = cur.iter().any(|s| s.party_id == self.w.party_id && s.verification_key_for_concatenation.to_json_hex().ok().as_ref() == Some(vk));
+            if !listed {
+                self.sfail("wrong-key", format!("event {idx}: {name}: the key registered two epochs earlier is not in the aggregator's signer set for epoch {t}"));
+            }
+        }
+        let signature = match m.signature.clone().try_into() {
+            Ok(s) => SingleSignature {
+                party_id: m.party_id.clone(),
+                signature: s,
+                won_indexes: m.won_indexes.clone(),
+                authentication_status: SingleSignatureAuthenticationStatus::Unauthenticated,
+            },
+            Err(_) => {
+                self.sfail("rejected", format!("event {idx}: {name}: signature does not decode"));
+                return;
+            }
+        };
+        let builder = match SignerBuilder::new(&cur, &self.w.params) {
+            Ok(b) => b,
+            Err(e) => {
+                self.sfail("rejected", format!("event {idx}: {name}: key registration of the aggregator's signer set fails: {e:#}"));
+                return;
+            }
+        };
+        let multi_signer = builder.build_multi_signer();
+        if let Err(e) = multi_signer.verify_single_signature(&m.signed_message, &signature) {
+            self.sfail("rejected", format!("event {idx}: {name} at epoch {t}: MultiSigner built from the registrations of epoch {} rejects the signature: {e:#}", t - 2));
+        }
+        // the signed message is the one the aggregator computes for this entity
+        match self.reference_message(&entity, t).await {
+            Ok(pm) => {
+                if pm.compute_hash() != m.signed_message {
+                    self.sfail("wrong-message", format!("event {idx}: {name} at epoch {t}: signed message differs from the aggregator's protocol message {:?}", pm));
+                }
+            }
+            Err(e) => self.sfail("wrong-message", format!("event {idx}: {name}: reference message cannot be computed: {e}")),
+        }
+    }
+
+    /// protocol message an aggregator at epoch `t` computes: entity part + next AVK (registrations recorded under `t`,
+    /// stake distribution of epoch `t - 1`) + next protocol parameters + current epoch
+    async fn reference_message(&self, entity: &SignedEntityType, t: u64) -> Result<ProtocolMessage, String> {
+        let mut pm = match entity {
+            SignedEntityType::MithrilStakeDistribution(e) => {
+                MithrilStakeDistributionSignableBuilder::default().compute_protocol_message(*e).await.map_err(|e| format!("{e:#}"))?
+            }
+            SignedEntityType::CardanoStakeDistribution(e) => {
+                struct Fixed(StakeDistribution);
+                #[async_trait]
+                impl StakeDistributionRetriever for Fixed {
+                    async fn retrieve(&self, _epoch: Epoch) -> StdResult<Option<StakeDistribution>> {
+                        Ok(Some(self.0.clone()))
+                    }
+                }
+                // CardanoStakeDistribution(t-1) = the distribution the node reports during epoch t
+                let ver = *self.book.stake_ver_of_epoch.get(&t).ok_or("no stake version")?;
+                let dist: StakeDistribution = self.w.base.iter().enumerate().map(|(i, s)| (s.party_id.clone(), stake_of(i, ver))).collect();
+                CardanoStakeDistributionSignableBuilder::new(Arc::new(Fixed(dist))).compute_protocol_message(*e).await.map_err(|e| format!("{e:#}"))?
+            }
+            SignedEntityType::CardanoDatabase(b) => {
+                let digester = Arc::new(DumbImmutableDigester::default().with_digest("DIGEST"));
+                CardanoDatabaseSignableBuilder::new(digester, Path::new(""), logger()).compute_protocol_message(b.clone()).await.map_err(|e| format!("{e:#}"))?
+            }
+            _ => return Err("entity type outside the harness".to_string()),
+        };
+        let next = self.reference_signers(t, t - 1).await?;
+        let avk: ProtocolAggregateVerificationKeyForConcatenation = SignerBuilder::new(&next, &self.w.params)
+            .map_err(|e| format!("next signer set: {e:#}"))?
+            .compute_aggregate_verification_key()
+            .to_concatenation_aggregate_verification_key()
+            .to_owned()
+            .into();
+        pm.set_message_part(ProtocolMessagePartKey::NextAggregateVerificationKey, avk.to_json_hex().map_err(|e| format!("{e:#}"))?);
+        pm.set_message_part(ProtocolMessagePartKey::NextProtocolParameters, self.w.params.compute_hash());
+        pm.set_message_part(ProtocolMessagePartKey::CurrentEpoch, t.to_string());
+        Ok(pm)
+    }
+}
+
+// ------------------------------------------------------------------------------------------- generator
+
+struct Gen {
+    rng: Rng,
+    len: usize,
+    epoch_starts: Vec<usize>, // event indices at which an epoch change begins
+    faulty: bool,
+    mark_faults: bool,
+    pending_off: Vec<(usize, Ev)>, // (event index at which to emit, event)
+    pending_epoch: Option<(usize, Ev)>,
+}
+
+impl Gen {
+    /// `n_epochs` epochs over `len` events: mostly long enough to register and sign, now and then a very short one
+    fn new(seed: u64, len: usize, n_epochs: u64, faulty: bool, mark_faults: bool) -> Gen {
+        let mut rng = Rng::new(seed);
+        let n = n_epochs as usize;
+        // weights: the first two epochs (registration only) are shorter, one epoch in six is very short
+        let mut w: Vec<u64> = (0..n).map(|i| if i < 2 { 2 } else { 4 }).collect();
+        for x in w.iter_mut().skip(1) {
+            if rng.chance(1, 10) {
+                *x = 0;
+            } else {
+                *x += rng.below(3);
+            }
+        }
+        let tot: u64 = w.iter().sum::<u64>().max(1);
+        let mut epoch_starts = vec![];
+        let mut at = 0usize;
+        for x in w.iter().take(n - 1) {
+            at += ((*x as usize * len) / tot as usize).max(1 + rng.below(3) as usize);
+            epoch_starts.push(at.min(len.saturating_sub(1)));
+        }
+        Gen { rng, len, epoch_starts, faulty, mark_faults, pending_off: vec![], pending_epoch: None }
+    }
+
+    fn next(&mut self, i: usize, b: &Book) -> Ev {
+        // scheduled follow-ups first
+        if let Some((at, _)) = &self.pending_epoch {
+            if *at <= i {
+                return self.pending_epoch.take().unwrap().1;
+            }
+        }
+        if let Some(pos) = self.pending_off.iter().position(|(at, _)| *at <= i) {
+            return self.pending_off.remove(pos).1;
+        }
+        let skew = b.agg_epoch as i64 - b.epoch as i64;
+        if self.epoch_starts.first().map(|at| *at <= i).unwrap_or(false) && skew == 0 && self.pending_epoch.is_none() {
+            self.epoch_starts.remove(0);
+            // epoch change: who sees it first, and how many events later the other follows
+            let gap = *self.rng.pick(&[0usize, 0, 0, 0, 1, 2, 4, 7]);
+            let v = if self.rng.chance(1, 2) { b.stake_ver + 1 } else { b.stake_ver };
+            if self.faulty && self.rng.chance(2, 5) {
+                // a registration fault that is in force when the signer tries to register in the new epoch
+                let dur = self.rng.range(3, 9) as usize;
+                let (on, off) = match self.rng.below(5) {
+                    0 => (Ev::Down(true), Ev::Down(false)),
+                    1 => (Ev::RoundClosed(true), Ev::RoundClosed(false)),
+                    2 => (Ev::RegFail(true), Ev::RegFail(false)),
+                    _ => (Ev::RegDrop(true), Ev::RegDrop(false)),
+                };
+                self.pending_off.push((i + 1, on));
+                self.pending_off.push((i + 1 + dur, off));
+            }
+            if self.rng.chance(2, 3) {
+                self.pending_epoch = Some((i + 1 + gap, Ev::AggEpochUp));
+                return Ev::EpochUp(v);
+            } else {
+                self.pending_epoch = Some((i + 1 + gap, Ev::EpochUp(v)));
+                return Ev::AggEpochUp;
+            }
+        }
+        // other parties register for the aggregator's recording epoch; a party registers once per epoch
+        let rec = b.agg_epoch + 1;
+        let done = b.registered_others.get(&rec).cloned().unwrap_or_default();
+        let mut cand: Vec<usize> = (1..N_PARTIES).filter(|p| !done.contains(p)).collect();
+        // the signer's own registration was dropped: somebody else may register another key under its party id
+        if b.dropped_recs.contains(&rec) && !b.impostor_recs.contains(&rec) && self.rng.chance(1, 3) {
+            return Ev::RegOthers(vec![0]);
+        }
+        if !cand.is_empty() && self.rng.chance(if done.is_empty() { 30 } else { 6 }, 100) {
+            if !self.rng.chance(2, 3) {
+                self.rng.shuffle(&mut cand);
+                let n = self.rng.range(1, cand.len() as u64) as usize;
+                cand.truncate(n);
+                cand.sort();
+            }
+            return Ev::RegOthers(cand);
+        }
+        let r = self.rng.below(1000);
+        if r < 60 {
+            return Ev::ImmUp(self.rng.range(1, 3));
+        }
+        if r < 85 {
+            return Ev::Restart;
+        }
+        if self.faulty && r < 175 {
+            let dur = self.rng.range(1, 4) as usize;
+            let k = self.rng.below(if self.mark_faults { 8 } else { 6 });
+            match k {
+                0 if !b.faults.down => {
+                    self.pending_off.push((i + 1 + dur, Ev::Down(false)));
+                    return Ev::Down(true);
+                }
+                1 if !b.faults.round_closed => {
+                    self.pending_off.push((i + 1 + dur, Ev::RoundClosed(false)));
+                    return Ev::RoundClosed(true);
+                }
+                2 if !b.faults.reg_fail => {
+                    self.pending_off.push((i + 1 + dur, Ev::RegFail(false)));
+                    return Ev::RegFail(true);
+                }
+                3 if !b.faults.reg_drop => {
+                    self.pending_off.push((i + 1 + dur * 2, Ev::RegDrop(false)));
+                    return Ev::RegDrop(true);
+                }
+                4 | 5 => return Ev::PubFail(self.rng.range(1, 5)),
+                6 | 7 => return Ev::MarkFail(self.rng.range(1, 2)),
+                _ => {}
+            }
+        }
+        Ev::Tick
+    }
+}
+
+async fn run_case(name: &str, fx: &Fixture, cfg: &RunCfg, seed: u64, len: usize, faulty: bool, mark_faults: bool, n_epochs: u64,
+                  script: Option<Vec<Ev>>) -> RunOut {
+    let w = World::new(name, fx, cfg.e0, cfg.imm0, cfg.sv0, cfg.params.clone(), cfg.attempts, cfg.retention, &cfg.cfg).await;
+    let inc = w.start_signer().await;
+    let mut book = Book {
+        epoch: cfg.e0,
+        agg_epoch: cfg.e0,
+        imm: cfg.imm0,
+        stake_ver: cfg.sv0,
+        stake_ver_of_epoch: BTreeMap::new(),
+        registered_others: BTreeMap::new(),
+        key_ids: HashMap::new(),
+        next_key: 0,
+        faults: Faults::default(),
+        mark_fail: 0,
+        dropped_recs: BTreeSet::new(),
+        impostor_recs: BTreeSet::new(),
+    };
+    book.stake_ver_of_epoch.insert(cfg.e0, cfg.sv0);
+    for (i, s) in fx.signers.iter().enumerate() {
+        if let Ok(h) = s.verification_key_for_concatenation.to_json_hex() {
+            book.key_ids.insert(h, 1000 + i as u64);
+        }
+    }
+    let out = RunOut {
+        req: String::new(),
+        imp: String::new(),
+        sfails: vec![],
+        n_pubs: 0,
+        n_posts: 0,
+        n_lost: 0,
+        n_restarts: 0,
+        n_mark_failed: 0,
+        epochs: 0,
+        n_events: 0,
+        states: BTreeSet::new(),
+        results: BTreeMap::new(),
+    };
+    let mut r = Runner { w: &w, inc: Some(inc), book, evs: vec![], obs: vec![], seen_posts: 0, seen_pubs: 0, out, published: HashMap::new(), prev_beacons: vec![], cfg };
+    match script {
+        Some(evs) => {
+            for ev in evs.iter() {
+                r.apply(ev).await;
+            }
+        }
+        None => {
+            let mut g = Gen::new(seed, len, n_epochs, faulty, mark_faults);
+            let mut i = 0;
+            while i < g.len || g.pending_epoch.is_some() {
+                let ev = g.next(i, &r.book);
+                r.apply(&ev).await;
+                i += 1;
+            }
+        }
+    }
+    // request line and implementation line
+    let cfg_txt = r
+        .cfg
+        .cfg
+        .iter()
+        .map(|(e, ds)| format!("({},[{}])", e, ds.iter().map(disc_letter).collect::<Vec<_>>().join(",")))
+        .collect::<Vec<_>>()
+        .join(",");
+    let req = format!(
+        "c20.run e0={} imm0={} sv0={} cfg=[{}] att={} ret={} evs=[{}]",
+        cfg.e0,
+        cfg.imm0,
+        cfg.sv0,
+        cfg_txt,
+        cfg.attempts,
+        cfg.retention.map(|r| r.to_string()).unwrap_or("x".to_string()),
+        r.evs.join(",")
+    );
+    let n = r.obs.len() / 2;
+    let mut imp = String::new();
+    for i in 0..n {
+        if i > 0 {
+            imp.push(';');
+        }
+        imp.push_str(&r.obs[2 * i]);
+        if i + 1 == n {
+            let _ = write!(imp, "/B[{}]", r.obs[2 * i + 1]);
+        }
+    }
+    let mut out = r.out;
+    out.req = req;
+    out.imp = imp;
+    out.n_mark_failed = w.mark_failed.load(Ordering::SeqCst);
+    out.epochs = r.book.epoch - cfg.e0 + 1;
+    out.n_events = r.evs.len();
+    drop(r.inc);
+    out
+}
+
+fn all_discs() -> Vec<SignedEntityTypeDiscriminants> {
+    vec![
+        SignedEntityTypeDiscriminants::MithrilStakeDistribution,
+        SignedEntityTypeDiscriminants::CardanoStakeDistribution,
+        SignedEntityTypeDiscriminants::CardanoDatabase,
+    ]
+}
+
+/// the witness of the known finding: publish succeeds, `mark_beacon_as_signed` fails, the next tick publishes again
+fn witness_script() -> Vec<Ev> {
+    let mut evs = vec![Ev::RegOthers(vec![1, 2]), Ev::Tick, Ev::Tick];
+    evs.extend([Ev::EpochUp(0), Ev::AggEpochUp, Ev::RegOthers(vec![1, 2]), Ev::Tick, Ev::Tick]);
+    evs.extend([Ev::EpochUp(0), Ev::AggEpochUp, Ev::Tick, Ev::Tick]);
+    // now ReadyToSign at epoch e0 + 2
+    evs.extend([Ev::MarkFail(1), Ev::Tick, Ev::Tick, Ev::Tick]);
+    evs
+}
+
+#[tokio::main(flavor = "multi_thread", worker_threads = 4)]
+async fn main() {
+    let args = Args::parse();
+    hutil::quiet_panics();
+    if std::env::var("C20_VERBOSE").is_ok() {
+        VERBOSE.store(true, Ordering::Relaxed);
+    }
+    let mut sink = Sink::new(&args);
+    let params_std = ProtocolParameters { k: 5, m: 100, phi_f: 0.65 };
+    let params_low = ProtocolParameters { k: 2, m: 30, phi_f: 0.3 };
+    let fx = Fixture {
+        signers: MithrilFixtureBuilder::default().with_signers(N_PARTIES).with_protocol_parameters(params_std.clone()).build().signers_with_stake(),
+    };
+    let n_runs: usize = args.extra.get("runs").and_then(|v| v.parse().ok()).unwrap_or(if args.thorough() { 600 } else { 90 });
+    let mut rng = Rng::new(args.seed ^ 0xC20);
+    let mut totals: BTreeMap<String, u64> = BTreeMap::new();
+    let mut states: BTreeSet<String> = BTreeSet::new();
+    let mut add = |k: &str, v: u64| *totals.entry(k.to_string()).or_insert(0) += v;
+
+    // ---- case 0: witness of the known finding (also a K case)
+    {
+        let cfg = RunCfg { e0: 1, imm0: 1, sv0: 0, cfg: vec![(0, all_discs())], attempts: 2, retention: None, params: params_std.clone() };
+        if sink.wanted() {
+            let out = run_case("witness", &fx, &cfg, 0, 0, false, true, 3, Some(witness_script())).await;
+            let idx = sink.case("witness", &out.req, &out.imp);
+            let dup: Vec<&(String, String)> = out.sfails.iter().filter(|(c, _)| c == "republish-after-mark-failure").collect();
+            sink.witness(
+                "C20-republish-after-mark-failure",
+                !dup.is_empty(),
+                &dup.first().map(|(_, w)| w.clone()).unwrap_or("no repeated publication after the injected mark failure".to_string()),
+            );
+            for (c, w) in out.sfails.iter() {
+                sink.sfail(idx, c, w, &out.req);
+            }
+        } else {
+            sink.skip();
+        }
+    }
+
+    for run in 0..n_runs {
+        // every choice of the case derives from the seed, whether or not the case is executed
+        let mut r = rng.fork();
+        let kind = run % 6;
+        let (faulty, mark_faults) = match kind {
+            0 | 1 => (false, false),
+            5 => (true, true),
+            _ => (true, false),
+        };
+        let len = if args.thorough() { r.range(30, 200) } else { *r.pick(&[30u64, 40, 50, 60, 80, 100, 120, 160, 200]) } as usize;
+        let n_epochs = r.range(3, (len as u64 / 10).clamp(3, 6));
+        let e0 = *r.pick(&[1u64, 1, 2, 3, 7]);
+        let imm0 = r.range(1, 9);
+        let sv0 = r.below(3);
+        let mut cfg_markers = vec![(0u64, if r.chance(3, 4) { all_discs() } else { let mut d = all_discs(); d.remove(r.range(1, 2) as usize); d })];
+        if r.chance(1, 2) {
+            let mut d = all_discs();
+            let k = r.below(4);
+            if k < 3 {
+                d.remove(k as usize);
+            }
+            cfg_markers.push((e0 + r.range(1, 3), d));
+        }
+        let attempts = *r.pick(&[1u8, 2, 2, 3]);
+        let retention = if r.chance(1, 3) { Some(r.range(1, 3) as usize) } else { None };
+        let low = r.chance(1, 4);
+        let cfg = RunCfg { e0, imm0, sv0, cfg: cfg_markers, attempts, retention, params: if low { params_low.clone() } else { params_std.clone() } };
+        let tag = match (faulty, mark_faults, retention.is_some(), low) {
+            (false, _, false, false) => "plain",
+            (false, _, true, _) => "plain-retention",
+            (false, _, false, true) => "plain-lowphi",
+            (true, true, _, _) => "faults-mark",
+            (true, false, true, _) => "faults-retention",
+            (true, false, false, true) => "faults-lowphi",
+            (true, false, false, false) => "faults",
+        };
+        if !sink.wanted() {
+            sink.skip();
+            continue;
+        }
+        let seed = r.u64();
+        let out = run_case(&format!("run{}", run), &fx, &cfg, seed, len, faulty, mark_faults, n_epochs, None).await;
+        let idx = sink.case(tag, &out.req, &out.imp);
+        for (c, w) in out.sfails.iter() {
+            sink.sfail(idx, c, w, &out.req);
+        }
+        add("publications", out.n_pubs as u64);
+        add("registration_requests", out.n_posts as u64);
+        add("lotteries_all_lost", out.n_lost as u64);
+        add("restarts", out.n_restarts as u64);
+        add("mark_failures", out.n_mark_failed);
+        add("epochs", out.epochs);
+        add("events", out.n_events as u64);
+        for (k, v) in out.results.iter() {
+            add(&format!("result_{}", k), *v);
+        }
+        states.extend(out.states.iter().cloned());
+    }
+    for (k, v) in totals.iter() {
+        sink.note(k, &v.to_string());
+    }
+    sink.note("states_seen", &states.into_iter().collect::<Vec<_>>().join(""));
+    sink.finish();
 }
